@@ -317,7 +317,8 @@ def shrinkToSize (cfg : Cfg) (c : Nat) : M α Unit :=
       allocate cfg v.alloc v.size >>= fun nb => pure (nb, v.size)
    else pure (v.inl, v.N)) >>= fun (nb, ncap) =>
   tryCatch (uninitializedMove cfg true v.data 0 v.size nb 0)
-    (fun e => (if v.N < ncap then deallocate v.alloc nb ncap else pure ()) >>= fun _ => throwE e) >>= fun _ =>
+    (fun e => (if guard_shrinkToSize_2 { genv cfg v with newCap := ncap } then deallocate v.alloc nb ncap else pure ()) >>= fun _ =>
+              throwE e) >>= fun _ =>
   destroyRange cfg v.data 0 v.size >>= fun _ =>
   deallocate v.alloc v.data v.cap >>= fun _ =>
   setDataPtr c nb >>= fun _ => setCapacity c ncap
